@@ -1,6 +1,17 @@
 (** Hash table proofs, part B: the invariant, the abstraction, and the refinement lemmas of
-    new_conf, resize, add, get, contains_key, remove, remove_all, destroy - for every hash function
-    and comparator satisfying the section hypotheses. *)
+    get, contains_key, add (without the resize) and remove - for every hash function and comparator
+    satisfying the section hypotheses. (Part A: generic lemmas; C: new_conf, resize, add, remove_all,
+    destroy, load bound; D: enumerations and the iterator; E: steps, histories, cross-cutting corollaries;
+    F: CC_HashSet.)
+
+    Not proved / outside the model (nothing below is used as a premise of a stated theorem):
+    - the library's concrete hash functions (djb2, MurmurHash3, pointer hash) and comparators: they are
+      universally quantified; that they satisfy the two hypotheses is tied by the correspondence run only;
+    - the [size] counter is not wrapped modulo 2^64 (see HashModel.v);
+    - iterator programs that break the documented contract (iter_remove twice or before iter_next, table
+      mutation other than iter_remove during a traversal): the model predicts a fault or stale cursor for
+      them, no theorem is stated about them;
+    - float rounding of capacity * load_factor beyond dyadic factors (T5). *)
 From Coq Require Import Permutation.
 From CC Require Import Base.Prelude Base.ListMem Base.Alloc Base.AllocProofs.
 From CC Require Import Generated.Status Generated.Constants Generated.Guards Hash.HashModel Hash.HashProofsA.
